@@ -753,15 +753,32 @@ func (d *driver) replay(path, header string) {
 	json.Unmarshal(raw, &rp)
 	var withReq struct {
 		Request *request `json:"request"`
+		Kind    string   `json:"kind"`
+		Type    string   `json:"type"`
+		Off     int      `json:"off"`
+		Mut     string   `json:"mutation"`
 	}
 	json.Unmarshal(rp.Case, &withReq)
 	if withReq.Request != nil && !strings.HasSuffix(withReq.Request.Data, "...") {
-		rs, died := d.wk.do(withReq.Request, 60*time.Second)
+		rq := withReq.Request
+		rs, died := d.wk.do(rq, 60*time.Second)
 		if died != "" {
 			fmt.Println("implementation:", died)
 		} else {
 			b, _ := json.MarshalIndent(rs, "", " ")
 			fmt.Println("implementation:", string(b))
+		}
+		// return data / call data: write the case again so that ./check evaluates the model on it
+		if t, err := parseSig(withReq.Type); err == nil && t.K == kTuple && (rq.Kind == "dec" || rq.Kind == "call") {
+			d.w = cv.NewWriter(d.out, "C11", header, "case", "mismatches", 1)
+			data, _ := hex.DecodeString(rq.Data)
+			if rq.Kind == "dec" {
+				d.addDec(t, data, rq.Off, "replay")
+			} else {
+				d.addCall(rq.Name, t, data, "replay")
+			}
+			d.w.Flush()
+			fmt.Println("model: evaluated by ./check on the re-written case (a disagreement or oracle failure is reported below)")
 		}
 		d.st.Evaluations = 1
 		d.st.Write(filepath.Join(d.out, "stats_C11.json"))
